@@ -423,12 +423,37 @@ impl SyntaxTemplate {
         })
     }
 
+    fn mentions_pattern_variable(
+        template: &SyntaxTemplate,
+        substitutions: &HashMap<String, (Datum, Vec<Datum>)>,
+    ) -> bool {
+        match &template.data {
+            SyntaxTemplateBody::Pair(list) => list
+                .clone()
+                .into_pair_iter()
+                .any(|item| Self::mentions_pattern_variable(&item.get_inside().0, substitutions)),
+            SyntaxTemplateBody::Vector(vec) => vec
+                .iter()
+                .any(|item| Self::mentions_pattern_variable(&item.0, substitutions)),
+            SyntaxTemplateBody::Identifier(var) => substitutions.contains_key(var),
+            _ => false,
+        }
+    }
+
     fn substitute_template_element(
         template_element: &SyntaxTemplateElement,
         substitutions: &HashMap<String, (Datum, Vec<Datum>)>,
     ) -> Result<Vec<Datum>, SchemeError> {
         match template_element {
             SyntaxTemplateElement(sub_template, true) => {
+                // a sub-template followed by an ellipsis has to mention a pattern variable,
+                // otherwise there is nothing that tells how often to repeat it
+                if !Self::mentions_pattern_variable(sub_template, substitutions) {
+                    return located_error!(
+                        SyntaxError::UnexpectedTemplate(sub_template.clone()),
+                        sub_template.location
+                    );
+                }
                 let mut result = sub_template.substitude(substitutions)?;
                 let mut suffix_item_index = 0;
                 while let Some(item) =
